@@ -514,7 +514,7 @@ class FnSplicer:
             want = anchor.split()
             hits = []
             i = body_open + 1
-            while i < body_close - len(want):
+            while i <= body_close - len(want):
                 if [t.text for t in toks[i:i + len(want)]] == want and not excluded(i):
                     hits.append(i)
                 i += 1
@@ -1460,6 +1460,12 @@ class Extractor:
             pre.append(('ins', '\n', 'wrap'))
             post.insert(0, ('ins', '\n', 'wrap'))
             post.insert(0, ('src', toks[wend].start, toks[wend].end))
+        if spec.get('lift') and wrappers:
+            # Rule 'nested-item-lifted': an item declared inside a function body (a local struct / impl) is emitted at
+            # module level; items do not capture anything from the enclosing function, so this changes visibility only
+            pre = []
+            post = []
+            self.counts['nested-item-lifted'] = self.counts.get('nested-item-lifted', 0) + 1
         if spec.get('wrapper'):
             # the enclosing impl header is replaced by the given one (e.g. a trait impl checked as an inherent impl)
             pre = [('ins', spec['wrapper'] + ' {\n', name + '/impl-header-override')]
